@@ -491,9 +491,9 @@ class RaggedView2:
             if len(self.lengths) and (idx >= np.min(self.lengths) or idx < -np.min(self.lengths)):
                 raise ValueError(f'Column index {idx} is out of bounds for shape {self}')
             if idx >= 0:
-                return self.__class__(self.starts + idx,
+                return self.__class__(self.starts + idx*self.col_step,
                                       np.ones_like(self.lengths))
-            return self.__class__(self.ends + idx, np.ones_like(self.lengths))
+            return self.__class__(self.starts + (self.lengths+idx)*self.col_step, np.ones_like(self.lengths))
 
         # starts, lengths, col_step = (self.starts, self.lengths, self.col_step)
         step = 1 if col_slice.step is None else col_slice.step
